@@ -179,8 +179,8 @@ func mutateJSON(text []byte, o byteOp) []byte {
 	var tree map[string]any
 	dec := json.NewDecoder(bytes.NewReader(text))
 	dec.UseNumber()
-	if err := dec.Decode(&tree); err != nil {
-		return mutateBytes(text, byteOp{Op: "flip", At: 0}) // an earlier op already broke the text
+	if err := dec.Decode(&tree); err != nil || tree == nil {
+		return mutateBytes(text, byteOp{Op: "flip", At: 0}) // an earlier op already broke the text (or made it "null")
 	}
 	raw := func(s string) json.RawMessage { return json.RawMessage(s) }
 	keys, _ := tree["key"].([]any)
